@@ -155,6 +155,8 @@ class Labware:
             rows,
             columns,
         ), f"Invalid shape of initial_volumes: {initial_volumes.shape}"
+        # validate in double precision: a float32 array would be compared with the limits in single precision
+        initial_volumes = initial_volumes.astype(float)
         if not np.all(np.isfinite(initial_volumes)):
             raise ValueError("initial_volume must be finite")
         if np.any(initial_volumes < 0):
